@@ -596,6 +596,7 @@ func runSerial(phases []phase) error {
 	failOpens := 0
 	opened := 0
 	attempts := 0 // every call of the opener, successful or not
+	twoHandles := ""
 	var cur *sim.Pipe
 	serialDevices.Store(dev, func() (io.ReadWriteCloser, error) {
 		mu.Lock()
@@ -604,6 +605,9 @@ func runSerial(phases []phase) error {
 		if failOpens > 0 {
 			failOpens--
 			return nil, errors.New("injected open failure")
+		}
+		if cur != nil && !cur.Released() {
+			twoHandles = fmt.Sprintf("open call %d: the device is opened again while the previous handle (handle %d) has not been released yet - its Close has not returned: two transports of a one-channel endpoint at once", attempts, opened)
 		}
 		opened++
 		cur = sim.NewPipe()
@@ -687,6 +691,10 @@ func runSerial(phases []phase) error {
 			p.WaitWriteCalls(p.WriteCalls()+0, 50*time.Millisecond)
 			time.Sleep(3 * time.Millisecond)
 		}
+		if ph.kind == "readerr-slowclose" {
+			// releasing the device takes longer than the reconnect delay (a port draining its output queue)
+			p.SetCloseDelay(3 * c14Reconnect)
+		}
 		if ph.kind == "readerr-closefails" {
 			// the device is gone: closing it reports an error of its own; why the channel ended is the read error
 			p.FailClose(fmt.Errorf("injected close error %d", pi))
@@ -729,6 +737,12 @@ func runSerial(phases []phase) error {
 	if err := checkAlternation(life, c14Reconnect); err != nil {
 		return err
 	}
+	mu.Lock()
+	th := twoHandles
+	mu.Unlock()
+	if th != "" {
+		return fmt.Errorf("%s", th)
+	}
 	ci := 0
 	for _, e := range life {
 		if !e.open && ci < len(injected) {
@@ -756,7 +770,7 @@ func init() {
 
 func TestC14Clients(t *testing.T) {
 	rec := evid.New(t, "C14", "client-type endpoints under generated fault sequences: TCP client against a harness server that is down for a while (failed connection attempts), accepts and then ends the connection by EOF, reset or silence (idle timeout); serial endpoint (hooked opener) whose open fails several times and whose reads fail with an injected error; oracles: strictly alternating open/close events (never two channels at once), every close event carries an error matching the injected cause, a fresh channel opens after every close but not earlier than the reconnect delay, connections seen by the peer == open events; non-trivial = >=2 consecutive failures including a failed connect; distinct by hash of the phases")
-	rec.Require("tcp-client", "serial", "udp-client", "failed-connect-then-failure", "idle-expiry", "reset", "consumer-stalled-across-close", "write-failure-before-read-fault", "fault-after-long-lived-channel", "read-fault-while-writer-blocked", "udp-peer-vanishes", "outage-longer-than-connect-timeout", "closing-the-failed-device-fails-too")
+	rec.Require("tcp-client", "serial", "udp-client", "failed-connect-then-failure", "idle-expiry", "reset", "consumer-stalled-across-close", "write-failure-before-read-fault", "fault-after-long-lived-channel", "read-fault-while-writer-blocked", "udp-peer-vanishes", "outage-longer-than-connect-timeout", "closing-the-failed-device-fails-too", "releasing-the-device-takes-longer-than-the-reconnect-delay")
 	evid.Check(t, rec, evid.N(12, 60), func(t *rapid.T) {
 		drawNodeInit(t)
 		// several independent sub-scenarios run concurrently to use the waiting time
@@ -768,7 +782,7 @@ func TestC14Clients(t *testing.T) {
 		// one scenario of each endpoint kind per case, each going through every fault kind of its endpoint
 		subs := []*sub{
 			{kind: "tcp-client", phases: drawAllPhases(t, []string{"eof", "reset", "idle", "eof-longlived"})},
-			{kind: "serial", phases: drawAllPhases(t, []string{"readerr", "readerr-stalled", "writefail-then-readerr", "longlived-readerr", "blockedwrite-readerr", "readerr-closefails"})},
+			{kind: "serial", phases: drawAllPhases(t, []string{"readerr", "readerr-stalled", "writefail-then-readerr", "longlived-readerr", "blockedwrite-readerr", "readerr-closefails", "readerr-slowclose"})},
 			{kind: "udp-client", phases: drawAllPhases(t, []string{"answer-then-silent", "answer-then-vanish"})},
 		}
 		// the first TCP scenario always contains an outage longer than its connect timeout, somewhere after its
@@ -783,7 +797,7 @@ func TestC14Clients(t *testing.T) {
 			subs = append(subs, &sub{kind: "tcp-client", phases: drawPhases(t, []string{"down", "eof", "eof", "reset", "idle", "eof-longlived"})})
 		}
 		if rapid.Bool().Draw(t, "extra_serial") {
-			subs = append(subs, &sub{kind: "serial", phases: drawPhases(t, []string{"down", "readerr", "readerr-stalled", "writefail-then-readerr", "blockedwrite-readerr", "readerr-closefails"})})
+			subs = append(subs, &sub{kind: "serial", phases: drawPhases(t, []string{"down", "readerr", "readerr-stalled", "writefail-then-readerr", "blockedwrite-readerr", "readerr-closefails", "readerr-slowclose"})})
 		}
 		var wg sync.WaitGroup
 		for _, s := range subs {
@@ -840,6 +854,9 @@ func TestC14Clients(t *testing.T) {
 				}
 				if p.kind == "readerr-closefails" {
 					cls = append(cls, "closing-the-failed-device-fails-too")
+				}
+				if p.kind == "readerr-slowclose" {
+					cls = append(cls, "releasing-the-device-takes-longer-than-the-reconnect-delay")
 				}
 			}
 			if nt {
